@@ -62,6 +62,10 @@ CHECKS = {
          "Soundness (a successful result agrees with every supplied field) is checked on every one of the enumerated resolutions; completeness and the error classification are checked on all deviation-0 subsets under the statement's preconditions; deviations are explored smallest first (0, 1, 2).",
          "Trusted: RefFields (derivation of all 21 fields from a RefCal date/time). Which of Impossible/OutOfRange is reported is not judged.",
          "DESIGN.md §4 C14"),
+ 'C16': ("fault / edit enumeration on the real readers: every truncation, every header-count / version / magic / index / time / footer mutation of ~50 base files, every 1-edit (thorough: 2-edit) mutant of valid TZ strings, decided against an independent structural TZif reader and POSIX-rule reader; writer-driven acceptance of all bounded zone models, the whole system database and a TZ-string grid with structural comparison of the parsed zone; every accepted zone queried at extremes; allocation monitor",
+         "Accept side: the parsed zone's derived Debug rendering must equal the model for every generated file / string and every system file. Reject side: a mutant must be rejected exactly when the reference reader rejects it for a reason the statement names; nothing may panic; every accepted (mutated) zone must answer offset queries at i64 and range extremes and around its transitions without panicking; a counting global allocator bounds the largest request by the input size.",
+         "Trusted: RefTzif reader/writer and RefPosix reader/writer (identity asserted on all generated data). Hook: VerifZone (from_tzif / from_tz / debug).",
+         "DESIGN.md §4 C16"),
  'C17': ("complete small scope (every stamp x every span 1..=40 ns x 3 operations), complete product of boundary stamps x span alphabet x offsets with a second application (idempotence), and all 65,536 digit counts x nanosecond lattice, against i128 floor arithmetic",
          "All sign/tie/multiple combinations occur in the exhaustively enumerated small scope; boundary products cover the 64-bit nanosecond window ends, both date range ends, spans around i64::MAX, zero/negative/inexpressible spans and the wall-clock basis for offsets; each successful result is re-rounded (depth 2) to show idempotence.",
          "Trusted: i128 floor arithmetic; RefLeapTime for leap-second operands of the sub-second operations. The RoundingError variant is not judged.",
